@@ -2828,6 +2828,56 @@ fn install_panic_hook() {
     }));
 }
 
+/// Every item of the script's MIR — the structured dump of the real lowerer's output after
+/// dead-code elimination, hook `verif_hooks::c03::dump` — goes through the Lean checker
+/// `RotoV.ValueMir.matchIsOnCopy` (`c02 mirmatch`), which is proved sound
+/// (`match_bindings_read_the_switched_value_mir`): if it accepts, then on EVERY path through the
+/// item no instruction between a discriminant read of a variable and a binding extraction from
+/// it writes, drops or moves that variable. A rejection is a violation with the script as the
+/// failing input (the behavioural run of the same script shows the wrong value when the path
+/// is taken); the number of binding extractions verified is measured.
+fn mir_match_check(script: &str, rt: &Runtime<NoCtx>, drv: &mut Driver, rep: &mut Report, input: &dyn Fn(Value) -> Value) {
+    let dumped = std::panic::catch_unwind(std::panic::AssertUnwindSafe(|| {
+        roto::verif_hooks::c03::dump(FileTree::test_file("c02.roto", script, 0), rt)
+    }));
+    let Ok(Ok(items)) = dumped else {
+        rep.hist("mir_match_checker", "no-dump");
+        return;
+    };
+    for it in items {
+        let nums: Vec<String> = it.nums.iter().map(|n| n.to_string()).collect();
+        let ans = drv.ask(&format!("c02 mirmatch {}", nums.join(" ")));
+        let get = |k: &str| -> u64 {
+            ans.split(';').find_map(|kv| kv.strip_prefix(k)).and_then(|x| x.parse().ok()).unwrap_or(0)
+        };
+        if ans.starts_with("ok;") {
+            rep.hist("mir_match_checker", "items-accepted");
+            for _ in 0..get("binds=") {
+                rep.hist("mir_match_checker", "binding-extractions-verified");
+            }
+            for _ in 0..get("discr=") {
+                rep.hist("mir_match_checker", "discriminant-reads");
+            }
+        } else if ans.starts_with("bad;") {
+            let var = it.vars.get(get("var=") as usize).cloned().unwrap_or_default();
+            crate::viol(
+                rep,
+                &format!(
+                    "the MIR of a well-typed script extracts a pattern binding from variable `{var}` on a path on which `{var}` was written (or dropped / moved) after its discriminant was read: the match does not work on a copy (item {}, {ans})",
+                    it.name
+                ),
+                "match-binding-after-write",
+                input(json!({"item": it.name, "checker": ans, "variable": var, "mir": it.text})),
+            );
+        } else {
+            rep.mismatch(
+                "the Lean reader cannot decode the MIR dump of an item (grammar of verif_hooks::c03 changed?)",
+                input(json!({"item": it.name, "answer": ans})),
+            );
+        }
+    }
+}
+
 fn run_case(script: &str, specs: &[String], args: &[Args], sig: &str, rt: &Runtime<NoCtx>, drv: &mut Driver, rep: &mut Report) {
     rep.evaluations += 1;
     let input = |extra: Value| {
@@ -2868,6 +2918,8 @@ fn run_case(script: &str, specs: &[String], args: &[Args], sig: &str, rt: &Runti
         Ok(Ok(p)) => p,
     };
     rep.hist("beh_scripts", "ok");
+    // before anything runs: the real lowerer's MIR of the script through the verified checker
+    mir_match_check(script, rt, drv, rep, &input);
     let f = match pkg.get_function::<fn(u8, u16, u32, u64, i8, i64, bool) -> ()>("main") {
         Ok(f) => f,
         Err(e) => {
